@@ -224,6 +224,8 @@ def replay(prop, path, work, seed):
         return replay_convert(prop, path, rp, work, seed)
     if rp.get("kind") == "crash":
         return replay_crash(prop, path, rp, work, seed)
+    if rp.get("kind") == "conc":
+        return replay_conc(prop, path, rp, work, seed)
     if rp.get("kind", "history") != "history":
         raise Inconclusive("replay kind %s not handled here" % rp.get("kind"))
     vh = vlib.build_harness(work)
@@ -1133,3 +1135,157 @@ def c17(prop, tier, seed, work):
 
 
 CHECKS["C17"] = c17
+
+
+# --------------------------------------------------------------------------- C11: concurrent requests on one repository
+
+HANDLERS_CFG = """SPECIFICATION Spec
+CONSTANTS
+  RefLock = %s
+  Setups <- MCSetups
+  Combos <- MCCombos
+  Family = "%s"
+%s
+CHECK_DEADLOCK FALSE
+"""
+HANDLERS_PROPS = "VIEW View\nINVARIANT Linearizable\nINVARIANT LockFree\nINVARIANT NoStuck"
+
+# request mixes outside the menu of Handlers.tla (blob uploads and deletes): no model schedule, seeded random schedules only
+FREE_EPISODES = [
+    ("s0", [("BlobPut", "b4"), ("BlobPut", "b4")]), ("s0", [("BlobPut", "b4"), ("BlobGet", "b4")]),
+    ("s0", [("BlobDel", "b3"), ("BlobGet", "b3")]), ("s0", [("BlobDel", "b3"), ("BlobDel", "b3")]),
+    ("s0", [("BlobDel", "b3"), ("Put", "m2", "t2")]), ("s3", [("BlobDel", "b3"), ("Del", "m2")]),
+    ("s0", [("BlobPut", "b4"), ("BlobDel", "b4"), ("BlobGet", "b4")]),
+    ("s1", [("BlobDel", "b2"), ("Put", "a2"), ("Refs", "m1")]),
+]
+
+
+def free_episode(setup, reqs):
+    out = []
+    for r in reqs:
+        q = {"k": r[0], "d": "none", "t": "none", "s": "none"}
+        if r[0] == "Refs":
+            q["s"] = r[1]
+        else:
+            q["d"] = r[1]
+            if len(r) > 2:
+                q["t"] = r[2]
+        out.append(q)
+    return {"setup": setup, "reqs": out, "sched": []}
+
+
+def conc_run(work, vh, episodes, name, stores, free, seed):
+    import re
+    ef, tf = work.path("episodes-%s.ndjson" % name), work.path("conc-trace-%s.ndjson" % name)
+    vlib.write_programs(ef, episodes)
+    rc, out, dt = vlib.run([vh, "conc", "-episodes", ef, "-o", tf, "-stores", stores, "-seed", str(seed), "-free", str(free)], timeout=6000, check=False,
+                           env=dict(os.environ, TMPDIR=work.sub("roots-" + name)))
+    m = re.search(r"(\d+) episodes, (\d+) runs, (\d+) drift, (\d+) hung", out)
+    if rc != 0 or not m:
+        raise Inconclusive("conc harness failed:\n" + out[-3000:])
+    cfg = "SPECIFICATION LinSpec\nCONSTANT Focus = {\"C02\"}\nINVARIANT LinReport\nCHECK_DEADLOCK FALSE\n"
+    r2 = vlib.tlc(work, "lin-" + name, "TraceLin", cfg, files={tf: "trace.ndjson"}, workers=1, timeout=6000, java_opts="-Xss64m")
+    vs = vlib.tlc_prints(r2["out"], "VERDICT")
+    if "Model checking completed. No error has been found." not in r2["out"] or len(vs) != 1:
+        raise Inconclusive("TraceLin did not run to the end:\n" + r2["out"][-3000:])
+    v = vs[0]
+    acc = set(v["accepted"])
+    rejected, runs, drifts = [], 0, []
+    with open(tf) as f:
+        for line in f:
+            if '"k":"conc"' not in line:
+                continue
+            e = json.loads(line)
+            runs += 1
+            if e["drift"]:
+                drifts.append(e["id"])
+            if e["id"] not in acc:
+                rejected.append(e)
+    shutil.rmtree(r2["dir"], ignore_errors=True)
+    os.remove(tf)
+    return {"v": v, "runs": runs, "rejected": rejected, "drift": drifts, "hung": int(m.group(4)), "exec": dt, "tlc": r2["wall"], "states": r2["distinct"]}
+
+
+def c11(prop, tier, seed, work):
+    t0 = time.time()
+    quick = tier == "quick"
+    vh = vlib.build_harness(work)
+    # (1) the design: every interleaving of the store calls of two (thorough: three) requests is linearizable
+    notes, states, trans = [], 0, 0
+    for fam in (["pairs"] if quick else ["pairs", "triples"]):
+        res = vlib.tlc(work, "hd-" + fam, "MCHandlers", HANDLERS_CFG % ("TRUE", fam, HANDLERS_PROPS), workers=vlib.WORKERS, timeout=3000)
+        vlib.tlc_ok(res, "Handlers " + fam)
+        states += res["distinct"]
+        trans += res["states"]
+        notes.append("Handlers %s: %d distinct states, %d transitions, depth %d, %.0fs: Linearizable, LockFree, NoStuck hold" % (fam, res["distinct"], res["states"], res["depth"], res["wall"]))
+    # the model is not vacuous: without the server's referrer mutex TLC finds the lost update
+    res = vlib.tlc(work, "hd-demo", "MCHandlers", HANDLERS_CFG % ("FALSE", "demo", HANDLERS_PROPS), workers=2, timeout=600)
+    if "Invariant Linearizable is violated" not in res["out"]:
+        raise Inconclusive("Handlers with RefLock = FALSE no longer exhibits the lost update: the model lost its teeth\n" + res["out"][-1500:])
+    notes.append("Handlers demo with RefLock = FALSE: TLC reports the lost referrer update (sanity of Linearizable)")
+    # (2) schedules chosen by TLC, replayed on the real server through the store tap; (3) judged by TLC against Registry
+    episodes = []
+    # schedules of the model as it is (the real requests follow them call by call) and of the model without the mutex
+    # (adversarial: they interleave the critical sections; the real requests wait there, the scheduler goes on)
+    for fam, lock, num in (("pairs", "TRUE", 150 if quick else 2000), ("triples", "TRUE", 50 if quick else 1000),
+                           ("pairs", "FALSE", 150 if quick else 2000), ("triples", "FALSE", 50 if quick else 1000)):
+        g = vlib.tlc(work, "hd-gen-%s-%s" % (fam, lock), "MCHandlers", HANDLERS_CFG % (lock, fam, "INVARIANT Emit"), simulate="num=%d" % num, depth=120, seed=seed,
+                     workers=1, timeout=1200)
+        eps = vlib.tlc_prints(g["out"], "EPISODE")
+        if "Error:" in g["out"] or len(eps) < num // 2:
+            raise Inconclusive("MCHandlers generator failed:\n" + g["out"][-2000:])
+        episodes += [dict(e, adv=True) for e in eps] if lock == "FALSE" else eps
+    nmodel = len(episodes)
+    episodes += [free_episode(s, r) for s, r in FREE_EPISODES] * (2 if quick else 12)
+    x = conc_run(work, vh, episodes, "main", "mem,dir" if quick else "mem,dir,memdir", 1 if quick else 3, seed)
+    log("%d episodes (%d with a TLC schedule), %d runs, %d rejected, %d drift, %d hung (exec %.1fs, tlc %.1fs)" % (len(episodes), nmodel, x["runs"], len(x["rejected"]), len(x["drift"]), x["hung"], x["exec"], x["tlc"]))
+    violations = []
+    for f in x["v"]["fails"]:
+        raise Inconclusive("the sequential setup of an episode was not accepted: %s" % json.dumps(f)[:600])
+    seen = set()
+    for e in x["rejected"]:
+        ep = dict(e["episode"], order=e["played"])
+        key = json.dumps([e["store"], e["episode"]["setup"], e["episode"]["reqs"]], sort_keys=True)
+        if key in seen:
+            continue
+        seen.add(key)
+        path = vlib.save_replay(prop, e["id"], {"property": prop, "kind": "conc", "episode": ep, "store": e["store"], "seed": seed,
+                                               "ops": [{"op": o["op"], "status": o["resp"]["status"], "inv": o["inv"], "ret": o["ret"], "calls": o["calls"]} for o in e["ops"]],
+                                               "final": {"mans": [m["d"] for m in e["obs"]["r1"]["mans"]], "tags": e["obs"]["r1"]["tags"],
+                                                         "refs": {r["s"]: r["list"] for r in e["obs"]["r1"]["refs"] if r["list"]}}, "hung": e["hung"]})
+        violations.append((path, e))
+    if x["drift"] and not violations:
+        log("DRIFT: in %d runs the store calls of a request differ from spec/Handlers.tla (e.g. %s): the model needs to follow the code" % (len(x["drift"]), x["drift"][:3]))
+    cov = {"states": states, "transitions": trans, "traces_validated_against_impl": x["runs"], "trace_events": x["v"]["stats"]["events"],
+           "episodes": len(episodes), "episodes_with_model_schedule": nmodel, "runs": x["runs"], "drift": len(x["drift"]), "hung": x["hung"],
+           "linearization_search_states": x["states"], "model_checking": notes,
+           "rule": "episode = setup (s0..s3), 2 or 3 requests from the menu of spec/MCHandlers.tla and a complete schedule of their store calls chosen by tlc -simulate; the harness runs each request "
+                   "in a goroutine and lets exactly one store call through at a time in that order (blocking tap before every store call), then once more per store with a seeded random order; "
+                   "blob upload/delete mixes run with random orders only; TLC (spec/TraceLin.tla) searches a sequential order of Registry actions consistent with the real time order that yields "
+                   "every response and the final observed state", "samples": [{"setup": e["setup"], "reqs": e["reqs"], "sched": e["sched"][:12]} for e in episodes[:2]],
+           "exhaustive": False, "failures": [{"id": e["id"], "store": e["store"], "reqs": e["episode"]["reqs"]} for _, e in violations][:10]}
+    vlib.write_evidence(prop, tier, seed, "model_checking", cov, ASSUME_COMMON[:2] + [
+        "atomicity grain: a store call is atomic (repository mutex); races inside one store call are only met by the random-order runs, not enumerated",
+        "reading: a delete acknowledged with 202 although a concurrent delete had just removed the same target is accepted",
+        "background collection is not part of the episodes (it waits for all requests of the repository and is judged sequentially by C05/C06)"],
+        time.time() - t0, len(violations))
+    if violations:
+        for path, e in violations[:5]:
+            print("VIOLATION property=%s replay=%s" % (prop, path))
+            log("  %s on %s after %s: %s -> no sequential order explains responses %s and the final state" % (
+                e["id"], e["store"], e["episode"]["setup"], json.dumps(e["episode"]["reqs"]), [o["resp"]["status"] for o in e["ops"]]))
+        return 1
+    return 0
+
+
+def replay_conc(prop, path, rp, work, seed):
+    vh = vlib.build_harness(work)
+    x = conc_run(work, vh, [rp["episode"]], "replay", rp["store"], 0, rp.get("seed", seed))
+    if x["rejected"]:
+        print("VIOLATION property=%s replay=%s" % (prop, path))
+        return 1
+    print("replay passes: the outcome is linearizable (%d run)" % x["runs"])
+    return 0
+
+
+CHECKS["C11"] = c11
